@@ -86,6 +86,10 @@ def make_entry(rng, w, d, name, kind=None):
     elif kind == "link-abs":
         w.file(R + b"/abs-target", b"abs")
         w.link(p, R + b"/abs-target")
+    elif kind == "link-link":
+        w.file(d + b"/final-" + name, b"final")
+        w.link(d + b"/mid-" + name, b"final-" + name)
+        w.link(p, b"mid-" + name)
     return kind
 
 
@@ -183,12 +187,16 @@ def gen_put_world(rng, profile="mixed"):
     names = list(NAMES)
     rng.shuffle(names)
     nargs = rng.choice([1, 1, 1, 2, 2, 3, 4])
+    if profile == "single":
+        nargs = 1
+        if opts.get("mode") == "interactive":
+            del opts["mode"]
     args, meta = [], []
     cwd = rng.choice([home, home, R, rng.choice(dirs)])
     if cwd not in w.nodes:
         w.dir(cwd)
     for i in range(nargs):
-        r = rng.random()
+        r = rng.random() if profile != "single" else 0.5
         d = rng.choice(dirs)
         if d not in w.nodes:
             w.dir(d)
@@ -208,8 +216,11 @@ def gen_put_world(rng, profile="mixed"):
             args.append(rng.choice([mp, mp + b"/", relpath(mp, cwd)]))
             meta.append({"class": "mountpoint"})
             continue
-        kind = make_entry(rng, w, d, name)
+        kind = make_entry(rng, w, d, name, rng.choice(["link-file", "link-dir", "link-dangling", "link-abs", "link-link"])
+                          if profile == "links" and rng.random() < 0.8 else None)
         s, sp = spell(rng, w, d + b"/" + name, cwd, kind)
+        if profile == "links" and rng.random() < 0.5:
+            s = s.rstrip(b"/") + b"/" * rng.randint(0, 3)
         args.append(s)
         meta.append({"class": "entry", "kind": kind, "spelling": sp, "entry": d + b"/" + name})
     # arguments must designate unrelated entries: drop a mount-point argument when another entry lives below it
@@ -234,6 +245,30 @@ def gen_put_world(rng, profile="mixed"):
             w.dir(tdir + b"/files", 0o700)
             w.dir(tdir + b"/info", 0o700)
             populate_trash(rng, w, tdir, names[:nargs], rng.randint(1, 4))
+    if profile == "collide":
+        for tdir in {home + b"/.local/share/Trash"} | {v + b"/" + uid_dir(uid) for v in vols}:
+            parent = os.path.dirname(tdir)
+            if (tdir in w.nodes and w.nodes[tdir]["k"] != "d") or (parent in w.nodes and w.nodes[parent]["k"] != "d"):
+                continue
+            w.dir(tdir, 0o700)
+            w.dir(tdir + b"/files", 0o700)
+            w.dir(tdir + b"/info", 0o700)
+            many = rng.choice([0, 1, 3, 3, 101, 120]) if rng.random() < 0.6 else 0
+            for m_ in meta:
+                if "entry" not in m_:
+                    continue
+                nm = os.path.basename(m_["entry"])
+                for k in range(many):
+                    sfx = b"" if k == 0 else b"_%d" % k
+                    what = rng.choice(["pair", "pair", "info-only", "payload-only", "payload-dangling-link", "payload-dir"])
+                    if what in ("pair", "info-only"):
+                        w.file(tdir + b"/info/" + nm + sfx + b".trashinfo", b"[Trash Info]\nPath=/old\nDeletionDate=2020-01-01T00:00:00\n", 0o600)
+                    if what in ("pair", "payload-only"):
+                        w.file(tdir + b"/files/" + nm + sfx, b"old " + sfx)
+                    if what == "payload-dangling-link":
+                        w.link(tdir + b"/files/" + nm + sfx, b"nowhere")
+                    if what == "payload-dir":
+                        w.file(tdir + b"/files/" + nm + sfx + b"/inner", b"old dir")
     stdin = None
     if opts.get("mode") == "interactive":
         replies = [rng.choice([b"y", b"Y", b"yes", b"n", b"", b"x", b"N", b" y"]) for _ in range(rng.randint(0, nargs))]
@@ -457,3 +492,42 @@ def gen_trash_world(rng, cmd, profile="mixed"):
     from .model import cmd_argv
     world["argv"] = cmd_argv(world)
     return world
+
+
+def gen_fault_world(rng):
+    """one argument, rename-able into the first or a later candidate: the world of a C17 fault sweep"""
+    w = W()
+    uid = rng.choice([0, 1000])
+    home = w.dir(R + b"/home/u")
+    where = rng.choice(["home", "top", "alt", "alt-after-insecure-top", "custom"])
+    env = {"HOME": home}
+    opts = {}
+    if where == "home":
+        d = home + b"/docs"
+    else:
+        w.mount(R + b"/vol1")
+        d = R + b"/vol1/stuff"
+        if where == "top":
+            w.dir(R + b"/vol1/.Trash", 0o1777)
+        elif where == "alt-after-insecure-top":
+            w.dir(R + b"/vol1/.Trash", 0o777)
+        elif where == "custom":
+            opts["trashDir"] = R + b"/vol1/ct"
+    w.dir(d)
+    name = rng.choice([b"f", b"a b", b"caf\xc3\xa9"])
+    kind = make_entry(rng, w, d, name, rng.choice(["file", "tree", "link-file", "link-dangling", "empty"]))
+    if rng.random() < 0.4:
+        # a collision on the first name
+        t = {"home": home + b"/.local/share/Trash", "top": R + b"/vol1/.Trash/%d" % uid, "custom": R + b"/vol1/ct"}.get(
+            where, R + b"/vol1/" + uid_dir(uid))
+        w.dir(t, 0o700)
+        w.dir(t + b"/files", 0o700)
+        w.dir(t + b"/info", 0o700)
+        w.file(t + b"/info/" + name + b".trashinfo", b"[Trash Info]\nPath=/x\nDeletionDate=2020-01-01T00:00:00\n", 0o600)
+        w.file(t + b"/files/" + name, b"older")
+    cwd = rng.choice([d, home])
+    arg = rng.choice([d + b"/" + name, relpath(d + b"/" + name, cwd)])
+    meta = [{"class": "entry", "kind": kind, "spelling": "abs" if arg.startswith(b"/") else "rel", "entry": d + b"/" + name,
+             "where": where}]
+    return w.world(env=env, uid=uid, cwd=cwd, cmd="put", args=[arg], opts=opts, argv=put_argv(opts, [arg]), stdin=None,
+                   randints=[7, 8, 9], meta=meta)
